@@ -2,9 +2,22 @@ import Model.Basic
 /-!
 # Model.Der — executable model of `src/ecdsa/der.py` (encoders and readers), core Lean only
 
-Every reader returns `Res …`; the Python failure modes that the code can reach are kept
-(`indexError` from `str_idx_as_int` on a too-short string, `assertionError` from `assert`), so
-that C10/C11 can *prove* them unreachable.  `string[a:b]` is `(s.drop a).take (b-a)`.
+Line-by-line transcription of the code that exists (Python 3 paths):
+
+* `string[a:b]` (with `0 ≤ a ≤ b`) is `(s.drop a).take (b - a)`; `len` is `List.length`;
+* `str_idx_as_int(s, i)` is `idx s i` and raises `IndexError` (`.indexError`) out of range — the readers keep
+  every such call, C11 proves the constructor unreachable from every reader except `read_number` on `b""`;
+* `six.int2byte(n)` is `struct.Struct(">B").pack(n)`: `struct.error` (`.other`) unless `0 ≤ n ≤ 255`;
+* `"%x" % n` + left-pad to even length + `binascii.unhexlify` is `hexBytes n` (never empty);
+* `int(binascii.hexlify(s), 16)` is `beVal s`;
+* the comparison `length > len(string) - 1 - llen` is made on `Int`, as Python does (no truncated subtraction).
+
+Two layers of encoders:
+* `encodeXPy` : the faithful transcription, `Res`-valued (assertions, `struct.error` of `int2byte`, `ValueError`);
+  these are what the correspondence run drives against the real code and what `Props/C11` speaks about;
+* `encodeX`   : the same byte string as a total function (what `encodeXPy` returns whenever it returns), kept for
+  the models that compose encoders (keys, signatures).  `Proofs/DerEnc.lean` proves `encodeXPy v = .ok e → e = encodeX v`
+  and `InDomain v → encodeXPy v = .ok (encodeX v)`.
 -/
 namespace Der
 
@@ -14,17 +27,39 @@ def idx (s : Bytes) (i : Nat) : Res UInt8 :=
   | some b => .ok b
   | none => .error .indexError
 
+/-- `six.int2byte(n)` = `struct.Struct(">B").pack(n)`: `struct.error` outside `0..255` -/
+def int2byte (n : Int) : Res UInt8 :=
+  if 0 ≤ n ∧ n < 256 then .ok (UInt8.ofNat n.toNat) else .error .other
+
 /-- `binascii.unhexlify` of `"%x" % n` left-padded with one `0` to even length: never empty -/
 def hexBytes (n : Nat) : Bytes := if n = 0 then [0] else beMin n
 
-/-- `der.encode_length(l)`, `l ≥ 0` -/
+/-! ## length -/
+
+/-- `der.encode_length(l)` as a total function (value of `encodeLengthPy` on its domain `l < 256^127`;
+beyond that the first byte wraps exactly as `0x80 | llen` does for `llen < 256`) -/
 def encodeLength (l : Nat) : Bytes :=
   if l < 0x80 then [UInt8.ofNat l]
   else
     let s := hexBytes l
-    -- int2byte(0x80 | llen): raises for llen ≥ 128 — unreachable for lengths of real buffers; the
-    -- model wraps like UInt8 and the theorems carry `l < 256 ^ 127`
     UInt8.ofNat (0x80 ||| s.length) :: s
+
+/-- `der.encode_length(l)` for `l ≥ 0`, with the failure of `int2byte(0x80 | llen)` for `llen ≥ 256`.
+(For `128 ≤ llen ≤ 255` the call succeeds and returns a first byte that does *not* announce `llen`
+bytes: the codec's round-trip domain is `l < 256^127`.) -/
+def encodeLengthPy (l : Nat) : Res Bytes :=
+  if l < 0x80 then do
+    let b ← int2byte l
+    .ok [b]
+  else do
+    let s := hexBytes l
+    let llen := s.length
+    let b ← int2byte ((0x80 ||| llen : Nat) : Int)
+    .ok (b :: s)
+
+/-- `der.encode_length(l)` with its `assert l >= 0` -/
+def encodeLengthInt (l : Int) : Res Bytes :=
+  if l < 0 then .error .assertionError else encodeLengthPy l.toNat
 
 /-- `der.read_length(string)` → `(length, bytes consumed)` -/
 def readLength (s : Bytes) : Res (Nat × Nat) :=
@@ -41,21 +76,43 @@ def readLength (s : Bytes) : Res (Nat × Nat) :=
         if msb = 0 ∨ (llen = 1 ∧ msb < 0x80) then .error .unexpectedDER
         else .ok (beVal (rest.take llen), 1 + llen)
 
+/-- the test `length > len(string) - 1 - llen` on Python integers -/
+def tooLong (length : Nat) (s : Bytes) (llen : Nat) : Bool :=
+  decide ((length : Int) > (s.length : Int) - 1 - (llen : Int))
+
 /-- common tail of the TLV readers after the tag test: read the length, check it against the
 buffer (all readers do after the F6 repair; `remove_object` does it by comparing `len(body)`),
 return `(body, rest)` -/
 def tlvBody (s : Bytes) : Res (Bytes × Bytes) := do
   let (length, llen) ← readLength (s.drop 1)
-  if length > s.length - 1 - llen then .error .unexpectedDER
+  if tooLong length s llen then .error .unexpectedDER
   else .ok ((s.drop (1 + llen)).take length, s.drop (1 + llen + length))
 
-def encodeInteger (r : Nat) : Bytes :=
+/-! ## INTEGER -/
+
+/-- content octets of the INTEGER `r ≥ 0`: minimal big-endian bytes, with a `00` in front when the top bit is set -/
+def intBody (r : Nat) : Bytes :=
   let s := hexBytes r
   match s with
-  | [] => []  -- unreachable: hexBytes is never empty
-  | num :: _ =>
-    if num ≤ 0x7f then [0x02] ++ encodeLength s.length ++ s
-    else [0x02] ++ encodeLength (s.length + 1) ++ [0x00] ++ s
+  | [] => []  -- hexBytes is never empty (`hexBytes_ne_nil`); `encodeIntegerPy` has `IndexError` here
+  | num :: _ => if num ≤ 0x7f then s else 0x00 :: s
+
+/-- `der.encode_integer(r)` for `r ≥ 0` as a total function -/
+def encodeInteger (r : Nat) : Bytes :=
+  [0x02] ++ encodeLength (intBody r).length ++ intBody r
+
+/-- `der.encode_integer(r)`, transcription -/
+def encodeIntegerPy (r : Int) : Res Bytes :=
+  if ¬ r ≥ 0 then .error .assertionError
+  else do
+    let s := hexBytes r.toNat
+    let num ← idx s 0
+    if num ≤ 0x7f then do
+      let l ← encodeLengthPy s.length
+      .ok ([0x02] ++ l ++ s)
+    else do
+      let l ← encodeLengthPy (s.length + 1)
+      .ok ([0x02] ++ l ++ [0x00] ++ s)
 
 def removeInteger (s : Bytes) : Res (Nat × Bytes) :=
   match s with
@@ -64,7 +121,7 @@ def removeInteger (s : Bytes) : Res (Nat × Bytes) :=
     if t ≠ 0x02 then .error .unexpectedDER
     else do
       let (length, llen) ← readLength (s.drop 1)
-      if length > s.length - 1 - llen then .error .unexpectedDER
+      if tooLong length s llen then .error .unexpectedDER
       else if length = 0 then .error .unexpectedDER
       else
         let numberbytes := (s.drop (1 + llen)).take length
@@ -77,7 +134,13 @@ def removeInteger (s : Bytes) : Res (Nat × Bytes) :=
           else .ok (beVal numberbytes, rest)
         else .ok (beVal numberbytes, rest)
 
+/-! ## OCTET STRING, SEQUENCE, constructed -/
+
 def encodeOctetString (s : Bytes) : Bytes := [0x04] ++ encodeLength s.length ++ s
+
+def encodeOctetStringPy (s : Bytes) : Res Bytes := do
+  let l ← encodeLengthPy s.length
+  .ok ([0x04] ++ l ++ s)
 
 def removeOctetString (s : Bytes) : Res (Bytes × Bytes) :=
   match s with
@@ -88,14 +151,26 @@ def encodeSequence (pieces : List Bytes) : Bytes :=
   let body := pieces.flatten
   [0x30] ++ encodeLength body.length ++ body
 
+/-- `total_len = sum(len(p) …)`; `b"".join(pieces)` -/
+def encodeSequencePy (pieces : List Bytes) : Res Bytes := do
+  let totalLen := (pieces.map List.length).sum
+  let l ← encodeLengthPy totalLen
+  .ok ([0x30] ++ l ++ pieces.flatten)
+
 def removeSequence (s : Bytes) : Res (Bytes × Bytes) :=
   match s with
   | [] => .error .unexpectedDER
   | t :: _ => if t ≠ 0x30 then .error .unexpectedDER else tlvBody s
 
-/-- `encode_constructed(tag, value)`; `int2byte(0xA0 + tag)` needs `tag ≤ 0x5f`, DER needs `tag ≤ 0x1f` -/
+/-- `encode_constructed(tag, value)` as a total function; DER needs `tag ≤ 0x1f` -/
 def encodeConstructed (tag : Nat) (value : Bytes) : Bytes :=
   [UInt8.ofNat (0xA0 + tag)] ++ encodeLength value.length ++ value
+
+/-- `encode_constructed(tag, value)`: `int2byte(0xA0 + tag)` raises unless `-160 ≤ tag ≤ 95` -/
+def encodeConstructedPy (tag : Int) (value : Bytes) : Res Bytes := do
+  let t ← int2byte (0xA0 + tag)
+  let l ← encodeLengthPy value.length
+  .ok ([t] ++ l ++ value)
 
 def removeConstructed (s : Bytes) : Res (Nat × Bytes × Bytes) :=
   match s with
@@ -106,13 +181,16 @@ def removeConstructed (s : Bytes) : Res (Nat × Bytes × Bytes) :=
       let (body, rest) ← tlvBody s
       .ok ((s0 &&& 0x1F).toNat, body, rest)
 
-/-- base-128 digits of `n`, most significant first, continuation bit on all (as built by the loop) -/
+/-! ## base-128 numbers and OBJECT IDENTIFIER -/
+
+/-- base-128 digits of `n`, most significant first, continuation bit on all (as built by the loop
+`while n: digits.insert(0, (n & 0x7f) | 0x80); n = n >> 7`) -/
 def b128Digits : Nat → List UInt8
   | 0 => []
   | n+1 => b128Digits ((n+1) >>> 7) ++ [UInt8.ofNat (((n+1) &&& 0x7F) ||| 0x80)]
 decreasing_by simp only [Nat.shiftRight_eq_div_pow]; omega
 
-/-- `encode_number(n)` -/
+/-- `encode_number(n)`, `n ≥ 0` (a negative `n` never leaves the loop) -/
 def encodeNumber (n : Nat) : Bytes :=
   let ds := b128Digits n
   let ds := if ds.isEmpty then [0] else ds
@@ -129,11 +207,13 @@ def readNumberLoop (s : Bytes) (number llen : Nat) : Res (Nat × Nat) :=
     if d &&& 0x80 = 0 then .ok (number, llen + 1)
     else readNumberLoop rest number (llen + 1)
 
+/-- `read_number(string)`; `str_idx_as_int(string, 0)` raises `IndexError` on `b""` -/
 def readNumber (s : Bytes) : Res (Nat × Nat) := do
   let b0 ← idx s 0
   if b0 = 0x80 then .error .unexpectedDER else readNumberLoop s 0 0
 
-/-- the `while body:` loop of `remove_object`; fuel = `body.length` (each round consumes ≥ 1 byte) -/
+/-- the `while body:` loop of `remove_object`; fuel = `body.length` (each round consumes ≥ 1 byte, so
+the fuel never runs out: `.other` is proved unreachable in `Proofs/DerOid.lean`) -/
 def readNumbers : Nat → Bytes → Res (List Nat)
   | 0, body => if body.isEmpty then .ok [] else .error .other
   | fuel+1, body =>
@@ -143,11 +223,28 @@ def readNumbers : Nat → Bytes → Res (List Nat)
       let ns ← readNumbers fuel (body.drop ll)
       .ok (n :: ns)
 
-/-- `encode_oid(first, second, *pieces)` with its `assert` -/
+/-- the content octets `encode_oid` joins -/
+def oidBody (first second : Nat) (pieces : List Nat) : Bytes :=
+  encodeNumber (40 * first + second) ++ (pieces.map encodeNumber).flatten
+
+/-- the `assert` of `encode_oid` on non-negative arcs -/
+def OidDomain (first second : Nat) : Prop := (first < 2 ∧ second ≤ 39) ∨ first = 2
+
+instance (a b : Nat) : Decidable (OidDomain a b) := by unfold OidDomain; infer_instance
+
+/-- `encode_oid(first, second, *pieces)` with its `assert` (non-negative arcs) -/
 def encodeOid (first second : Nat) (pieces : List Nat) : Res Bytes :=
-  if (first < 2 ∧ second ≤ 39) ∨ first = 2 then
-    let body := encodeNumber (40 * first + second) ++ (pieces.map encodeNumber).flatten
-    .ok ([0x06] ++ encodeLength body.length ++ body)
+  if OidDomain first second then do
+    let body := oidBody first second pieces
+    let l ← encodeLengthPy body.length
+    .ok ([0x06] ++ l ++ body)
+  else .error .assertionError
+
+/-- `encode_oid` with Python integers for the first two arcs:
+`assert 0 <= first < 2 and 0 <= second <= 39 or first == 2 and 0 <= second` -/
+def encodeOidPy (first second : Int) (pieces : List Nat) : Res Bytes :=
+  if (0 ≤ first ∧ first < 2 ∧ 0 ≤ second ∧ second ≤ 39) ∨ (first = 2 ∧ 0 ≤ second) then
+    encodeOid first.toNat second.toNat pieces
   else .error .assertionError
 
 def removeObject (s : Bytes) : Res (List Nat × Bytes) :=
@@ -170,6 +267,8 @@ def removeObject (s : Bytes) : Res (List Nat × Bytes) :=
           let second := n0 - 40 * first
           .ok (first :: second :: tail, rest)
 
+/-! ## BIT STRING -/
+
 /-- the three calling conventions of the BIT STRING pair -/
 inductive Unused
   | legacy            -- argument not given (`_sentry`)
@@ -177,26 +276,50 @@ inductive Unused
   | some (n : Int)    -- an integer
 deriving DecidableEq, Repr
 
+/-- `last & (2 ** unused - 1)` is non-zero -/
+def padBits (last : UInt8) (unused : Nat) : Bool := last.toNat &&& (2 ^ unused - 1) ≠ 0
+
+/-- the padding test shared by the encoder and the reader:
+`if unused: if not s: raise …; last = str_idx_as_int(s, -1); if last & (2 ** unused - 1): raise …` -/
+def padCheck (s : Bytes) (unused : Nat) (err : PyErr) : Res Unit :=
+  if unused ≠ 0 then
+    match s.getLast? with
+    | Option.none => .error err
+    | Option.some last => if padBits last unused then .error err else .ok ()
+  else .ok ()
+
 /-- `encode_bitstring(s, unused)`; `ValueError` for a bad `unused` -/
 def encodeBitstring (s : Bytes) (unused : Unused) : Res Bytes :=
   match unused with
-  | .legacy | .none => .ok ([0x03] ++ encodeLength s.length ++ s)
+  | .legacy | .none => do
+    let l ← encodeLengthPy s.length
+    .ok ([0x03] ++ l ++ s)
   | .some u =>
     if ¬ (0 ≤ u ∧ u ≤ 7) then .error .valueError
-    else
-      let un := u.toNat
-      let bad : Res Bool :=
-        if un ≠ 0 then
-          match s.getLast? with
-          | none => .error .valueError
-          | some last => .ok (last.toNat &&& (2 ^ un - 1) ≠ 0)
-        else .ok false
-      match bad with
-      | .error e => .error e
-      | .ok true => .error .valueError
-      | .ok false => .ok ([0x03] ++ encodeLength (s.length + 1) ++ [UInt8.ofNat un] ++ s)
+    else do
+      padCheck s u.toNat .valueError
+      let eu ← int2byte u
+      let l ← encodeLengthPy (s.length + 1)
+      .ok ([0x03] ++ l ++ [eu] ++ s)
 
-/-- result of `remove_bitstring`: the body, and the unused-bit count when `expect_unused=None` -/
+/-- what `remove_bitstring` does after slicing `body` and `rest` -/
+def bitsTail (body rest : Bytes) (expect : Unused) : Res (Bytes × Option Nat × Bytes) :=
+  match expect with
+  | .legacy => .ok (body, Option.none, rest)
+  | e => do
+    let unusedB ← idx body 0
+    let unused := unusedB.toNat
+    if ¬ unused ≤ 7 then .error .unexpectedDER
+    else if (match e with | .some k => decide (k ≠ (unused : Int)) | _ => false) then .error .unexpectedDER
+    else do
+      let body := body.drop 1
+      padCheck body unused .unexpectedDER
+      match e with
+      | .none => .ok (body, Option.some unused, rest)
+      | _ => .ok (body, Option.none, rest)
+
+/-- `remove_bitstring(string, expect_unused)`; result: the body, the unused-bit count when
+`expect_unused=None`, the rest -/
 def removeBitstring (s : Bytes) (expect : Unused) : Res (Bytes × Option Nat × Bytes) :=
   match s with
   | [] => .error .unexpectedDER
@@ -205,31 +328,7 @@ def removeBitstring (s : Bytes) (expect : Unused) : Res (Bytes × Option Nat × 
     else do
       let (length, llen) ← readLength (s.drop 1)
       if length = 0 then .error .unexpectedDER
-      else if length > s.length - 1 - llen then .error .unexpectedDER
-      else
-        let body := (s.drop (1 + llen)).take length
-        let rest := s.drop (1 + llen + length)
-        match expect with
-        | .legacy => .ok (body, Option.none, rest)
-        | e =>
-          let unusedB ← idx body 0
-          let unused := unusedB.toNat
-          if ¬ unused ≤ 7 then .error .unexpectedDER
-          else if (match e with | .some k => decide (k ≠ (unused : Int)) | _ => false) then .error .unexpectedDER
-          else
-            let body := body.drop 1
-            let bad : Res Bool :=
-              if unused ≠ 0 then
-                match body.getLast? with
-                | Option.none => .error .unexpectedDER
-                | Option.some last => .ok (last.toNat &&& (2 ^ unused - 1) ≠ 0)
-              else .ok false
-            match bad with
-            | .error er => .error er
-            | .ok true => .error .unexpectedDER
-            | .ok false =>
-              match e with
-              | .none => .ok (body, Option.some unused, rest)
-              | _ => .ok (body, Option.none, rest)
+      else if tooLong length s llen then .error .unexpectedDER
+      else bitsTail ((s.drop (1 + llen)).take length) (s.drop (1 + llen + length)) expect
 
 end Der
